@@ -10,6 +10,7 @@ from ..common import arr2bits, bits2arr, driver
 THEOREMS = ['geom_series_solve', 'fallback_sum', 'periodic_eq_repetition_sum',
             'periodic_source_shape', 'geomSum_toMatrix', 'accumulate_replicate',
             'periodicFallback_eq', 'periodicS_eq_geomSum']
+PINS = ['pinConcatenatePeriodic']
 GEN_SITES = ['const:numeric.calculate_control_matrix_periodic',
              'einsum:numeric_calculate_control_matrix_from_atomic_0']
 COMPONENTS = ['cm_periodic']
